@@ -359,6 +359,8 @@ class Interp:
 
     def add_order(self, env, test, pol):
         """Record an ordering fact from an undecided integer comparison."""
+        if isinstance(test, ast.UnaryOp) and isinstance(test.op, ast.Not):
+            return self.add_order(env, test.operand, not pol)
         if not (isinstance(test, ast.Compare) and len(test.ops) == 1):
             return
         a = self.eval(test.left, env)
